@@ -42,6 +42,8 @@ def _strip_mv(e: ast.AST) -> ast.AST:
 def run(ch: Checker) -> None:
     prog = ch.prog
     ce = ConstEval(prog)
+    ch.rule('C01.13', 'who may replace the response parser: HttpProxyPlugin.response is assigned in __init__ only -- read_from_descriptors chooses between it and the follow-up parser at receive '
+                      'time, so swapping it at any other moment (e.g. when output is flushed) feeds the middle of a response to a fresh parser, which raises and tears the relay down', 1)
     ch.rule('C01.1', 'TcpConnection.queue: the only effect on self.buffer is append(<parameter>) and _num_buffer is incremented by 1 on the same path', 1)
     ch.rule('C01.2', 'TcpConnection.flush: send() receives the head element or a prefix slice of it; after a completed send exactly one of pop(0) [under sent == len(head), '
                      'with _num_buffer -= 1] or buffer[0] = head[sent:] [otherwise] happens; the would-block path changes nothing and returns 0', 2)
@@ -392,6 +394,14 @@ def run(ch: Checker) -> None:
     ch.check(bool(ok7), 'C01.7', None, 'PROXY_TUNNEL_ESTABLISHED_RESPONSE_PKT', '200 Connection established, no body, no Content-Length',
              'the tunnel acknowledgement is not a bare `200 Connection established` (%s): extra bytes would be injected ahead of tunnel data' % (info,), module_rel='proxy/http/responses.py')
 
+    # ---------------- C01.13 who may assign self.response
+    hp13 = prog.class_named('HttpProxyPlugin')
+    writers13 = sorted({fn.name for fn in list(hp13.methods.values()) + list(hp13.inlined_methods.values()) for chn, kind, node in attr_effects(getattr(fn, 'orig_node', fn.node))
+                        if chn == 'self.response' and kind == 'store'})
+    ch.check(writers13 == ['__init__'], 'C01.13', hp13.methods['__init__'], 'who may assign self.response', 'assigned in __init__ only',
+             'self.response is (re)assigned in %s: the relay decides per received segment which parser sees it by asking `self.response.is_complete`; replacing the parser between two segments '
+             'of one response makes the new parser read body bytes as a status line (IndexError), the segment is never queued and the connection is torn down' % writers13)
+
     # ---------------- C01.12 keep reading while data arrives
     rfd = prog.own_method('HttpProxyPlugin', 'read_from_descriptors')
     g12 = cfg_of(rfd, prog, exc_edges=False)
@@ -441,6 +451,9 @@ def run(ch: Checker) -> None:
     ch.check(not offenders, 'C01.8', snd, 'who may send', 'only TcpConnection.send (<- flush) writes to a connection socket', 'direct socket writes found')
     body_calls = [norm(c) for c in walk_no_nested(snd.node) if isinstance(c, ast.Call)]
     ch.check(body_calls == ['self.connection.send(data)'], 'C01.8', snd, 'send body', 'send() passes its argument to the socket unchanged', 'TcpConnection.send is no longer a plain pass-through: %s' % body_calls)
+    # ---------------- C01.14 (shared)
+    ch.import_rules('C05', {'C05.7': 'C01.14'}, 'the relay parses what it relays: a chunk size accepted without the range check (or rejected for a reason other than being out of range) ends the exchange mid-stream')
+
     # ---------------- C01.11 (shared)
     ch.import_rules('C07', {'C07.1': 'C01.11'}, 'relayed bytes still queued for the client are lost if the handler signals teardown with a non-empty buffer')
 
